@@ -9,6 +9,7 @@ import (
 	"runtime"
 	"sort"
 	"strings"
+	"sync"
 	"sync/atomic"
 	"time"
 
@@ -52,14 +53,20 @@ type Exec struct {
 }
 
 func (x *Exec) Obsf(format string, args ...any) {
+	lockFree()
+	defer unlockFree()
 	x.Obs = append(x.Obs, fmt.Sprintf(format, args...))
 }
 
 func (x *Exec) Fail(kind, subject, format string, args ...any) {
+	lockFree()
+	defer unlockFree()
 	x.Disc = append(x.Disc, Discrepancy{Kind: kind, Subject: subject, Detail: fmt.Sprintf(format, args...)})
 }
 
 func (x *Exec) Count(name string) {
+	lockFree()
+	defer unlockFree()
 	if x.Counters == nil {
 		x.Counters = map[string]int{}
 	}
@@ -68,10 +75,31 @@ func (x *Exec) Count(name string) {
 
 // Now returns a logical timestamp (monotone across threads) for histories.
 func (x *Exec) Now() int64 {
+	if vsched.FreeRunning {
+		return freeClock.Add(1)
+	}
 	if x.sched != nil {
 		return x.sched.Now()
 	}
 	return 0
+}
+
+var freeClock atomic.Int64
+
+// harnessMu protects the harness's own bookkeeping in the free-running race pass (under the
+// cooperative scheduler only one thread runs at a time and no lock is needed).
+var harnessMu sync.Mutex
+
+func lockFree() {
+	if vsched.FreeRunning {
+		harnessMu.Lock()
+	}
+}
+
+func unlockFree() {
+	if vsched.FreeRunning {
+		harnessMu.Unlock()
+	}
 }
 
 // Threads runs the bodies as managed threads to completion. It returns false
@@ -82,6 +110,23 @@ func (x *Exec) Threads(bodies ...func()) bool {
 		panic("harness: Threads called twice in one execution")
 	}
 	x.ran = true
+	if vsched.FreeRunning {
+		// race pass: real goroutines, real primitives, no scheduler
+		x.sched = vsched.New(nil, 0)
+		var wg sync.WaitGroup
+		for _, b := range bodies {
+			wg.Add(1)
+			go func(b func()) {
+				defer wg.Done()
+				defer func() { _ = recover() }()
+				b()
+			}(b)
+		}
+		wg.Wait()
+		vsched.FreeWait()
+		x.outcome = vsched.OutcomeOK
+		return true
+	}
 	s := vsched.New(x.prefix, x.Horizon)
 	s.Coarse = x.Coarse
 	if x.Trace {
@@ -134,6 +179,7 @@ type Job struct {
 	MinObs   int             `json:"min_obs,omitempty"` // vacuity: minimum distinct observations expected
 	Need     []string        `json:"need,omitempty"`    // vacuity: counters that must be > 0
 	Replay   *Violation      `json:"replay,omitempty"`
+	Race     int             `json:"race,omitempty"` // >0: free-running race pass with this many repetitions (no scheduler)
 }
 
 // Result is what a worker reports for one job shard.
@@ -379,6 +425,19 @@ func RunJob(job *Job) *Result {
 	e := &explorer{sc: sc, job: job, res: res, deadline: start.Add(time.Duration(job.BudgetS) * time.Second), obsSet: map[uint64]struct{}{}, viol: map[string]*Violation{}}
 	if job.Replay != nil {
 		replay(e, job.Replay)
+		return res
+	}
+	if job.Race > 0 {
+		// side condition, not a verdict: the same bodies free-running under the race detector
+		res.Engine = "race-pass"
+		vsched.FreeRunning = true
+		for i := 0; i < job.Race && time.Now().Before(e.deadline); i++ {
+			e.runOnce(nil, false)
+			res.Executions++
+		}
+		vsched.FreeRunning = false
+		res.Exhaustive = false
+		res.Capped = "free-running sampling (side condition only)"
 		return res
 	}
 	e.maxPB, e.maxEB = job.PB, job.EB
